@@ -193,9 +193,35 @@ def _fh_expected_index(fh_arg, self):
     return [int(cutoff) + v for v in vals]
 
 
+def _val_digest(v, keep, depth=0):
+    """value digest of one constructor parameter; sub-estimators by identity (their own parameters appear under their own deep key)"""
+    if hasattr(v, "get_params") and not isinstance(v, type):
+        keep.append(v)
+        return ("est", type(v).__name__, id(v))
+    if isinstance(v, (list, tuple)):
+        return (type(v).__name__,) + (tuple(_val_digest(x, keep, depth + 1) for x in v) if depth < 5 else (len(v),))
+    if isinstance(v, dict):
+        return ("dict",) + tuple((repr(k), _val_digest(x, keep, depth + 1)) for k, x in v.items())
+    if isinstance(v, (np.ndarray, pd.Series, pd.DataFrame, pd.Index)):
+        a = np.asarray(v)
+        return ("arr", type(v).__name__, a.shape, a.dtype.str, a.tobytes() if a.dtype != object else repr(a.tolist()))
+    if v is None or isinstance(v, (bool, int, float, str, bytes, np.generic)):
+        return ("p", type(v).__name__, repr(v))
+    if callable(v) and not hasattr(v, "__dict__"):
+        return ("fn", id(v))
+    if hasattr(v, "__dict__"):
+        return ("o", type(v).__name__, repr(sorted((k, repr(x)) for k, x in vars(v).items())))
+    return ("r", type(v).__name__, repr(v))
+
+
 def _params_snapshot(est):
+    """(shallow parameter objects, deep value digests): the shallow part sees a replaced object, the deep part sees a nested
+    object modified in place (e.g. a tuner writing the winning configuration into the forecaster it was given)"""
     try:
-        return {k: v for k, v in est.get_params(deep=False).items()}
+        shallow = {k: v for k, v in est.get_params(deep=False).items()}
+        keep = []
+        deep = {k: _val_digest(v, keep) for k, v in est.get_params(deep=True).items()}
+        return {"shallow": shallow, "deep": deep, "keep": keep}
     except Exception:  # noqa
         return None
 
@@ -209,6 +235,15 @@ def _same_param(a, b):
         return bool(a == b)
     except Exception:  # noqa
         return False
+
+
+def params_changed(before, after):
+    """names of constructor parameters (own, then nested `a__b`) whose value differs between two snapshots"""
+    ch = [k for k in before["shallow"] if k not in after["shallow"] or not _same_param(before["shallow"][k], after["shallow"][k])]
+    for k, d in before["deep"].items():
+        if k not in ch and (k not in after["deep"] or after["deep"][k] != d):
+            ch.append(k)
+    return ch
 
 
 def _data_digest(obj):
@@ -291,7 +326,7 @@ def install_forecaster_contracts():
                 REC.record("C04", "fit.sets-is_fitted", bool(self.is_fitted), "fit:is_fitted-not-set:" + cname, "is_fitted false after fit")
                 after = _params_snapshot(self)
                 if before is not None and after is not None:
-                    changed = [k for k in before if k not in after or not _same_param(before[k], after[k])]
+                    changed = params_changed(before, after)
                     REC.record("C04", "fit.params-unchanged", not changed, "fit:changes-constructor-parameter:%s:%s" % (cname, ",".join(changed)),
                                "fit changed constructor parameter(s) %s" % changed)
                 if isinstance(y, pd.Series) and len(y):
@@ -432,7 +467,7 @@ def install_estimator_contracts():
                 REC.record("C04", "fit.sets-is_fitted", bool(getattr(self, "is_fitted", True)), "fit:is_fitted-not-set:" + cname, "is_fitted false after fit")
                 after = _params_snapshot(self)
                 if before is not None and after is not None:
-                    changed = [kk for kk in before if kk not in after or not _same_param(before[kk], after[kk])]
+                    changed = params_changed(before, after)
                     REC.record("C04", "fit.params-unchanged", not changed, "fit:changes-constructor-parameter:%s:%s" % (cname, ",".join(changed)),
                                "fit changed constructor parameter(s) %s" % changed)
                 REC.record("C12", "fit.caller-data-unchanged", all(_digest_equal(d, _data_digest(x)) for d, x in zip(digs, a[:2])), "fit:mutates-caller-data:" + cname,
